@@ -302,6 +302,7 @@ func rulesC17(c *Ctx) {
 	c.Rule("executions")
 	c01Leaf(c)
 	c17RecordCallers(c)
+	witnessRules(c, "C17")
 	c.Rule("last-outcome")
 	retryLoop(c, map[string]bool{"recheck": true, "listeners": true})
 	retryDecision(c, map[string]bool{"listeners": true})
